@@ -158,6 +158,53 @@ func c19Schemas() []func() *c19Schema {
 			return s
 		},
 		func() *c19Schema {
+			s := &c19Schema{name: "Go pointers as input to Ptr schemas whose pointee is caught / transformed; pointer elements of inputs and defaults"}
+			age, name, e1, e2, d1, d2 := -5, "ann", "p", "q", "a", "b"
+			pAge, pName := &age, &name
+			elems := []*string{&e1, &e2}
+			def := []*string{&d1, &d2}
+			rec := map[string]any{"age": pAge, "name": pName}
+			own(&s.inputs, "input *int", pAge)
+			own(&s.inputs, "input *string", pName)
+			own(&s.inputs, "input []*string", elems)
+			own(&s.inputs, "input map holding pointers", rec)
+			own(&s.owned, "slice default of pointers", def)
+			up := func(p any, ctx z.Ctx) error { q := p.(*string); *q = strings.ToUpper(*q) + "!"; return nil }
+			sAge := z.Ptr(z.Int().GT(0).Catch(18))
+			sName := z.Ptr(z.String().PostTransform(up))
+			sRec := z.Struct(z.Schema{"age": z.Ptr(z.Int().GT(0).Catch(18)), "name": z.Ptr(z.String().PostTransform(up))})
+			sList := z.Slice(z.Ptr(z.String().PostTransform(up))).Default(def)
+			type R struct {
+				Age  *int
+				Name *string
+			}
+			show := func(ps []*string) []string {
+				var o []string
+				for _, p := range ps {
+					if p == nil {
+						o = append(o, "<nil>")
+					} else {
+						o = append(o, *p)
+					}
+				}
+				return o
+			}
+			own(&s.objects, "Ptr(Int) schema", sAge)
+			own(&s.objects, "list schema", sList)
+			s.events = []c19Event{
+				{"Ptr(Int.Catch).Parse(*int failing)", func() (string, any) { var d *int; m := sAge.Parse(pAge, &d); return c19Obs(m, *d), nil }},
+				{"Ptr(String.Post).Parse(*string)", func() (string, any) { var d *string; m := sName.Parse(pName, &d); return c19Obs(m, *d), nil }},
+				{"Struct{age,name}.Parse(map holding pointers)", func() (string, any) {
+					var d R
+					m := sRec.Parse(rec, &d)
+					return c19Obs(m, *d.Age, *d.Name), nil
+				}},
+				{"Slice(Ptr(String.Post)).Parse([]*string)", func() (string, any) { var d []*string; m := sList.Parse(elems, &d); return c19Obs(m, show(d)), nil }},
+				{"Slice(Ptr(String.Post)).Parse(nil) default taken", func() (string, any) { var d []*string; m := sList.Parse(nil, &d); return c19Obs(m, show(d)), nil }},
+			}
+			return s
+		},
+		func() *c19Schema {
 			s := &c19Schema{name: "Slice(Slice(Int)).Default([[1] [2 3]]).PostTransform(mutate inner)"}
 			def := [][]int{{1}, {2, 3}}
 			own(&s.owned, "nested slice default", def)
@@ -543,7 +590,7 @@ func init() {
 		ID:    "C19",
 		Rule:  "one execution = one sequence of ≤depth calls (Parse/Validate, absent/present inputs given as maps, []any, typed slices, structs, pointers) under {stock formatter, stock formatter over templates that mention {{value}}} on ONE schema object whose PostTransforms overwrite and append to their destination; after every call: deep snapshot (incl. hidden capacity) of every value handed to a builder (slice/nested defaults, OneOf lists, Contains params) and of every input is unchanged, the schema object itself (every field at any depth, incl. each test's parameter map) is unchanged, the destination shares no backing array with them, and a repeated call observes exactly what its first occurrence observed; every sequence is non-trivial; distinct = distinct (schema, call sequence). plus " + callsRule + ". plus " + layoutRule,
 		Floor: 20,
-		Bound: func(tier string) string { return fmt.Sprintf("all call sequences of length ≤%d over 12 schema families, every field visit order", c19Depth(tier)) },
+		Bound: func(tier string) string { return fmt.Sprintf("all call sequences of length ≤%d over 13 schema families, every field visit order", c19Depth(tier)) },
 		Assumptions: []string{"mutating callbacks only write through the pointer they are given"},
 		Items: func(tier string) []Item {
 			var items []Item
